@@ -979,6 +979,13 @@ pub struct WasmWorld {
 /// Installs a wasm module m.wasm with <= 3 generated imports, a.ts and b.ts
 /// (missing.ts is absent), and optionally main.ts importing the wasm module.
 pub fn wasm_world(ch: &Ch, loader: &ScriptedLoader) -> (WasmWorld, ModuleSpecifier) {
+  let w = wasm_choices(ch);
+  let root = wasm_install(&w, loader);
+  (w, root)
+}
+
+/// the choices alone (so that one world can be installed into several loaders)
+pub fn wasm_choices(ch: &Ch) -> WasmWorld {
   let n = ch.shape("wasm_imports", 4);
   let mut imports = vec![];
   for i in 0..n {
@@ -987,13 +994,19 @@ pub fn wasm_world(ch: &Ch, loader: &ScriptedLoader) -> (WasmWorld, ModuleSpecifi
     imports.push((from, ["f0", "f1", "f2"][i], kind));
   }
   let via_ts = ch.flag("wasm_imported_by_a_typescript_module");
-  loader.add("https://x/m.wasm", Entry::bytes(&wasm_binary(&imports)));
+  let root = if via_ts { "https://x/main.ts" } else { "https://x/m.wasm" };
+  let describe = json!({"wasm_imports": imports.iter().map(|(m, f, k)| json!({"module": m, "name": f, "kind": k})).collect::<Vec<_>>(), "root": root});
+  WasmWorld { imports, via_ts, describe }
+}
+
+pub fn wasm_install(w: &WasmWorld, loader: &ScriptedLoader) -> ModuleSpecifier {
+  let imports = &w.imports;
+  let via_ts = w.via_ts;
+  loader.add("https://x/m.wasm", Entry::bytes(&wasm_binary(imports)));
   loader.add_text("https://x/a.ts", "export function f0(): void {}\nexport const f1 = 1;\nexport const f2 = 2;\n");
   loader.add_text("https://x/b.ts", "export function f0(): void {}\nexport const f1 = 1;\nexport const f2 = 2;\n");
   loader.add_text("https://x/main.ts", "import { run } from \"./m.wasm\";\nrun();\n");
-  let root = url(if via_ts { "https://x/main.ts" } else { "https://x/m.wasm" });
-  let describe = json!({"wasm_imports": imports.iter().map(|(m, f, k)| json!({"module": m, "name": f, "kind": k})).collect::<Vec<_>>(), "root": root.as_str()});
-  (WasmWorld { imports, via_ts, describe }, root)
+  url(if via_ts { "https://x/main.ts" } else { "https://x/m.wasm" })
 }
 
 fn body_wasm(ch: &Ch) -> Run {
